@@ -29,13 +29,18 @@ def _custom_object_builder(cls, type, properties, version, base_class):
         _properties = prop_dict
 
         def __init__(self, **kwargs):
-            base_class.__init__(self, **kwargs)
-            _cls_init(cls, self, kwargs)
             ext = getattr(self, 'with_extension', None)
             if ext and version != '2.0':
-                if 'extensions' not in self._inner:
-                    self._inner['extensions'] = {}
-                self._inner['extensions'][ext] = class_for_type(ext, version, "extensions")()
+                # The extension which defines this type is part of every
+                # instance from the start (so ID generation, selector checks
+                # and property order see it).  Never touch the caller's dict.
+                extensions = kwargs.get('extensions')
+                if extensions is None or isinstance(extensions, dict):
+                    extensions = dict(extensions or {})
+                    extensions[ext] = class_for_type(ext, version, "extensions")()
+                    kwargs = dict(kwargs, extensions=extensions)
+            base_class.__init__(self, **kwargs)
+            _cls_init(cls, self, kwargs)
 
     _CustomObject.__name__ = cls.__name__
 
@@ -75,13 +80,18 @@ def _custom_observable_builder(cls, type, properties, version, base_class, id_co
             _id_contributing_properties = id_contrib_props
 
         def __init__(self, **kwargs):
-            base_class.__init__(self, **kwargs)
-            _cls_init(cls, self, kwargs)
             ext = getattr(self, 'with_extension', None)
             if ext and version != '2.0':
-                if 'extensions' not in self._inner:
-                    self._inner['extensions'] = {}
-                self._inner['extensions'][ext] = class_for_type(ext, version, "extensions")()
+                # The extension which defines this type is part of every
+                # instance from the start (so ID generation, selector checks
+                # and property order see it).  Never touch the caller's dict.
+                extensions = kwargs.get('extensions')
+                if extensions is None or isinstance(extensions, dict):
+                    extensions = dict(extensions or {})
+                    extensions[ext] = class_for_type(ext, version, "extensions")()
+                    kwargs = dict(kwargs, extensions=extensions)
+            base_class.__init__(self, **kwargs)
+            _cls_init(cls, self, kwargs)
 
     _CustomObservable.__name__ = cls.__name__
 
